@@ -553,11 +553,11 @@ def gen_case(rng, variant, op, sig, p, thr, big):
         return (variant, op, p, sp)
     if variant.endswith(".Dzero"):
         return (variant, op, p, [[0], rng.choice([0, 1, p - 1, rng.below(p)])])
-    heavy = op in ("gcd", "gcdext", "invmod", "invmodunit", "lcm", "powmod", "pow")
+    heavy = op in ("gcd", "gcdext", "invmod", "invmodunit", "lcm", "powmod", "pow", "pdivmod", "pmod")
     n1 = sizes_for(rng, thr, big and not heavy)
     n2 = sizes_for(rng, thr, big and not heavy)
     if heavy and big:
-        n1, n2 = rng.choice([n1, 55, 60, 104]), rng.choice([n2, 52, 57, 101])
+        n1, n2 = rng.choice([min(n1, 110), 55, 60, 104]), rng.choice([min(n2, 110), 52, 57, 101])
     r = rng.below(10)
     if r == 0:
         n2 = n1                               # equal degree
@@ -592,6 +592,8 @@ def gen_case(rng, variant, op, sig, p, thr, big):
                 A, B = [1], [1, 1]
         if op == "powmod":
             e = rng.choice([0, 1, 2, 3, 5, 8, 13, 255, 256, 1000003, p, p * p, 2 ** 70 + 1])
+            if len(B) > 12:
+                e = rng.choice([0, 1, 2, 3, 5, 8, 13, 255, 256])
             if p >= 2 ** 40:
                 e = rng.choice([0, 1, 2, 3, 5, 8, 13, 255, 256, 2 ** 70 + 1])
                 A, B = A[:12], B[:8]
